@@ -556,7 +556,7 @@ bool base_widget::validate()
 struct base_text::_data {};
 
 
-base_text::base_text() : low_(0),high_(-1),validate_charset_(true)
+base_text::base_text() : low_(0),high_(-1),validate_charset_(true),code_points_(0)
 {
 }
 
@@ -575,6 +575,11 @@ void base_text::value(std::string v)
 {
 	set(true);
 	value_=v;
+	// the count and the validity belong to the value: a value set by the program replaces what the last load() left
+	valid(true);
+	code_points_ = 0;
+	if(!validate_charset_ || !encoding::valid_utf8(value_.data(),value_.data()+value_.size(),code_points_))
+		code_points_ = value_.size();
 }
 
 
